@@ -48,10 +48,12 @@ def gen_arr(rng, maxops):
         elif c < 0.96:
             ops.append(rng.choice(["first", "last"]))
         else:
-            ops.append("len")
+            ops.append(rng.choice(["len", "len", "ss:%d" % rng.choice([0, 1, 3, 4, 5, 8, 9, 16, 17, size, size + 1, max(0, size - 1)])]))
+    if rng.random() < 0.4:
+        ops.append("fin")
     if rng.random() < 0.3:
         # allocator refuses during some inserts: ENOMEM exactly when the block must grow
-        ops = [("!" + o) if o[0] == "i" and rng.random() < 0.25 else o for o in ops]
+        ops = [("!" + o) if (o[0] == "i" or o[:2] == "ss") and rng.random() < 0.25 else o for o in ops]
     return "arr|" + ";".join(ops)
 
 
